@@ -4,7 +4,7 @@ CONSTANTS
   PlainNewline = TRUE
   W = 4
   Lens <- LensQuick
-  Pairs <- PairsSmall
+  Pairs <- PairsQuick
   MaxN = 2
   MaxSections = 3
   Depth = 5
